@@ -737,19 +737,25 @@ func (b *Block) getNumVoxels(labelIndex uint32) (labelVoxels uint64) {
 				default:
 				}
 
+				// More than one sub-block index can refer to the label index, e.g., after a merge.
 				var found bool
-				var targetIndex uint16
-				for i := uint16(0); i < numSBLabels; i++ {
-					if b.SBIndices[indexPos] == labelIndex {
+				sbIndices := b.SBIndices[indexPos : indexPos+uint32(numSBLabels)]
+				for _, index := range sbIndices {
+					if index == labelIndex {
 						found = true
-						targetIndex = i
+						break
 					}
-					indexPos++
 				}
+				indexPos += uint32(numSBLabels)
+				bits := int(bitsFor(numSBLabels))
 				if !found {
+					// skip the values of this sub-block
+					bitpos += int(subBlockNumVoxels) * bits
+					if bitpos%8 != 0 {
+						bitpos += 8 - (bitpos % 8)
+					}
 					continue
 				}
-				bits := int(bitsFor(numSBLabels))
 
 				var x, y, z int32
 				for z = 0; z < SubBlockSize; z++ {
@@ -768,7 +774,7 @@ func (b *Block) getNumVoxels(labelIndex uint32) (labelVoxels uint64) {
 								index |= uint16(b.SBValues[bytepos+1])
 								index >>= uint(16 - bithead - bits)
 							}
-							if index == targetIndex {
+							if sbIndices[index] == labelIndex {
 								labelVoxels++
 							}
 							bitpos += bits
